@@ -469,6 +469,11 @@ func (in *Instance) Proposal(c govtypes.Content) error {
 	return nil
 }
 
+// RawGet reads one key of a store through the open block's view.
+func (in *Instance) RawGet(store string, key []byte) []byte {
+	return in.Ctx().KVStore(in.keys[store]).Get(key)
+}
+
 // Snapshot returns the flattened state (reads through the open block cache).
 func (in *Instance) Snapshot() *Snapshot {
 	var ms sdk.MultiStore = in.root
